@@ -32,6 +32,10 @@ def P():
 # ---------------------------------------------------------------------------
 # case generation
 # ---------------------------------------------------------------------------
+SIBLINGS = {('Vector', (3,)): 'Vector3', ('Vector3', (3,)): 'Vector', ('Pair', (2,)): 'Vector',
+            ('Matrix', (3, 3)): 'Matrix3', ('Quaternion', (4,)): 'Vector'}
+
+
 def gen_rhs(rng, target, out_shape, step):
     """A right-hand side record for a selection of shape out_shape."""
     cls, item = target['cls'], tuple(target['item'])
@@ -58,6 +62,15 @@ def gen_rhs(rng, target, out_shape, step):
                 'mask': [False] * int(np.prod(rshape)), 'base': base, 'int': rng.random() < 0.5, 'derivs': {}}
     d = G.gen_object(rng, tuple(rshape), classes=[(cls, item)], base=base)
     d['form'] = 'object'
+    # a right-hand side of another class with the same item shape (Vector3 into Vector, Matrix3 into Matrix ...):
+    # __setitem__ converts it with as_this_type and must keep its derivatives (seeded change C10-C)
+    sib = SIBLINGS.get((cls, item))
+    if sib and rng.random() < 0.3:
+        d['cls'] = sib
+        if sib in ('Vector3', 'Matrix3'):
+            d['int'] = False
+        if rng.random() < 0.6:
+            d['dcls'] = cls          # ... whose derivatives already have the class of the target
     # overlap of derivative key sets with the target: keep, drop or add
     return d
 
@@ -105,7 +118,8 @@ def gen_cases(rng, tier):
         steps = []
         for k in range(rng.choice([1, 1, 2, 3])):
             r = rng.random()
-            ents = G.gen_bad_index(rng, shape) if r < 0.05 else G.gen_index(rng, shape)
+            ents = G.gen_bad_index(rng, shape) if r < 0.05 else \
+                (G.gen_focus_index(rng, shape) if (r < 0.35 and len(shape) >= 1) else G.gen_index(rng, shape))
             ref = ref_getitem(shape, ents)
             steps.append({'index': ents, 'rhs': gen_rhs(rng, t, None if ref == ('err',) else ref[0], k)})
         cases.append({'target': t, 'shared': t['mrep'] == 'arr' and rng.random() < 0.5, 'src': 'random',
@@ -250,10 +264,12 @@ def run_case(c, Pm):
         rreps = {None: rd['mrep']}
         rreps.update({kk: rd['derivs'][kk]['mrep'] for kk in rd['derivs']})
         coq_steps.append('(%s, %s)' % (G.coq_entries(st['index']), coq_state(robs, rreps)))
+        idx_snap = None
         with warnings.catch_warnings():
             warnings.simplefilter('error')
             try:
                 idx = G.to_impl(st['index'], Pm)
+                idx_snap = G.index_snapshot(idx)
                 rhs = build_rhs(rd, Pm)
                 rhs_before = G.observe(rhs) if isinstance(rhs, Pm.Qube) else None
                 q[idx] = rhs
@@ -303,6 +319,8 @@ def run_case(c, Pm):
                     fail = fail or 'rhs_changed'
         if other is not None and not same_obj(G.observe(other), other_before):
             fail = fail or 'mask_sharer_changed'
+        if idx_snap is not None and G.index_snapshot(idx) != idx_snap:
+            fail = fail or 'index_object_modified'     # assigning through an index object must not alter it
         info['fail'] = fail
         res['steps'].append(info)
         if fail:
